@@ -364,6 +364,9 @@ def limit_programs():
         ("limit:native-stack:data-100k-collect", "functie noop() { 0 }; stel a = []; stel i = 0; zolang i < 100000 { a = [a]; i += 1 }; noop(); lengte(a)"),
         ("limit:native-stack:data-100k-print", "stel a = []; stel i = 0; zolang i < 100000 { a = [a]; i += 1 }; print(a); 1"),
         ("limit:native-stack:data-100k-result", "stel a = []; stel i = 0; zolang i < 100000 { a = [a]; i += 1 }; a"),
+        # a list that contains itself: printing it must end (what it prints is not specified, a crash is excluded)
+        ("limit:print-self-containing-list", "stel a = [1, 0]; a[1] = a; print(a); print(\"{} {}\", [a], 2); lengte(a)"),
+        ("limit:print-mutually-containing-lists", "stel a = [1]; stel b = [a, 2]; a[0] = b; print(b); print(a); 7"),
         # ... and data that is merely large, not deep, is fine
         ("limit:wide-data-100k", "stel a = []; stel i = 0; zolang i < 300 { a = [a, i, 0.5, \"s\"]; i += 1 }; lengte(a)"),
     ]
